@@ -176,6 +176,15 @@ func (in *inst) sets(k int) []coverage.Set {
 	return res
 }
 
+// firsts is the number of distinct first glyphs for a rules: for large a more than 12 rules
+// share a first glyph.
+func (in *inst) firsts(a int) int {
+	if a >= 13 {
+		return a / 13
+	}
+	return 1 + in.r.Intn(a)
+}
+
 // subtable instantiates one subtable form.
 func (in *inst) subtable(s *Shape, form string) gtab.Subtable {
 	a, b, c, d, e := s.A, s.B, s.C, s.D, s.E
@@ -254,7 +263,7 @@ func (in *inst) subtable(s *Shape, form string) gtab.Subtable {
 		}
 		return &gtab.Gsub4_1{Cov: covOf(from), Repl: repl}
 	case "ctx1": // a rules, input length b, c actions
-		firsts := in.distinct(1 + in.r.Intn(a))
+		firsts := in.distinct(in.firsts(a))
 		rules := make([][]*gtab.SeqRule, len(firsts))
 		for i := 0; i < a; i++ {
 			k := i % len(firsts)
@@ -272,7 +281,7 @@ func (in *inst) subtable(s *Shape, form string) gtab.Subtable {
 	case "ctx3": // input length b, c actions
 		return &gtab.SeqContext3{Input: in.sets(b), Actions: in.actions(c, b)}
 	case "cc1": // a rules, backtrack d, input b, lookahead e, c actions
-		firsts := in.distinct(1 + in.r.Intn(a))
+		firsts := in.distinct(in.firsts(a))
 		rules := make([][]*gtab.ChainedSeqRule, len(firsts))
 		for i := 0; i < a; i++ {
 			k := i % len(firsts)
@@ -310,8 +319,13 @@ func (in *inst) subtable(s *Shape, form string) gtab.Subtable {
 		return &gtab.Gpos1_2{Cov: covOf(gg), Adjust: adj}
 	case "pair": // a pairs, first mask b, second mask c (0 = absent)
 		res := gtab.Gpos2_1{}
+		lefts := in.distinct(in.firsts(a))
 		for len(res) < a {
-			res[glyph.Pair{Left: in.gid(), Right: in.gid()}] = &gtab.PairAdjust{First: in.vr(b), Second: in.vr(c)}
+			l := in.gid()
+			if a >= 13 { // many pairs share their first glyph
+				l = lefts[in.r.Intn(len(lefts))]
+			}
+			res[glyph.Pair{Left: l, Right: in.gid()}] = &gtab.PairAdjust{First: in.vr(b), Second: in.vr(c)}
 		}
 		return res
 	case "pairclass": // a first classes, d second classes, masks b and c
